@@ -112,8 +112,9 @@ ClientOp(o) ==
           [] o.op = "remove" ->
                /\ store' = [store EXCEPT ![n] = ApplyRemove(n, o.k)]
                /\ replq' = Enq(n, Msg("replicate-remove", o.k, "", 0, 0))
-               /\ req' = req          \* never forwarded
-               /\ ghost' = IF n # P THEN ghost \cup {"RemoveOnSecondaryLocalOnly"} ELSE ghost
+               \* (repaired: before, a remove issued on a secondary was never forwarded)
+               /\ req' = IF n # P THEN [req EXCEPT ![<<n, P>>] = Append(@, Msg("replicate-remove", o.k, "", 0, 0))] ELSE req
+               /\ UNCHANGED ghost
           \* reads, subscriptions, database selection: nothing is stored (but a node-local counter) or sent
           [] o.op = "noop" -> UNCHANGED <<store, replq, req, ghost>>
           [] o.op = "increment" ->
